@@ -208,3 +208,22 @@ CHECKS["C03"] = dict(
         dict(name="stable", test="TestStable", kind="rapid", checks={"quick": 150, "thorough": 4000}, shards=16, timeout={"quick": 900, "thorough": 3400}, shrinktime="60s", gomaxprocs=4),
     ],
 )
+
+CHECKS["C01"] = dict(
+    pkg="c01", level="exploration",
+    engine="sim: simulated Redis Cluster + reference keyspace executor; real proxy through proc.New",
+    rule=("rapid-generated cases: layout (1..5 masters; even/striped/random/range tables), 1..4 concurrent client connections with "
+          "disjoint key pools, per connection a pipeline of 1..80 (thorough: up to 400) requests from the grammar {the C03 command "
+          "generator incl. MGET/MSET/DEL... over several nodes, unsupported names, names containing CR LF / NUL / RESP-looking text, "
+          "inline form, arrays that are not commands (*0, *-1, nested, non-bulk, bare scalars)}, a fragmentation plan of the request "
+          "bytes (whole, byte-wise, after every CR, random cuts snapped into CRLF), and a reply schedule (per node a cycled list of "
+          "reply delays 0..4 ms, so nodes answer out of arrival order while each backend connection stays FIFO). Oracle: the reference "
+          "keyspace executes each connection's program in order; the observed reply stream must parse as well-formed RESP and equal it "
+          "element by element (errors as errors); then a sentinel PING must be answered by exactly +PONG as the next reply and the "
+          "connection must stay silent for 30 ms; a missing reply is a hang (20 s). Non-trivial: >= 2 nodes and the node log shows a "
+          "later-arrived command of one node answered before an earlier one of another. Distinct by canonical JSON."),
+    assumptions=["backpressure beyond 1024 queued backend requests is not reached (pipelines <= 400)"],
+    parts=[
+        dict(name="pipeline", test="TestPipeline", kind="rapid", checks={"quick": 100, "thorough": 2500}, shards=16, timeout={"quick": 900, "thorough": 3400}, shrinktime="60s", gomaxprocs=4),
+    ],
+)
